@@ -563,9 +563,17 @@ def chk_select(acc, s, cid):
         return
     trs = [t[:-1] if t.endswith("*") else t for t in o_frames(table, s)]
     clean = [i for i, t in enumerate(trs) if "*" not in t]
-    if len(clean) != 1:
-        return  # none (the app drops the sequence) or several (which one is chosen is a tie-break, not a property)
-    i = clean[0]
+    if not clean:
+        return  # the app drops the sequence
+    # which of several stop-free frames is used is the library's tie-break: its own best_frame() says which; what
+    # is judged is that the selected sequence is that frame's codons
+    bf = call(lambda: I["app"].best_frame(I["om"].DNA.make_seq(s, name="a"), gc=cid, allow_rc=True))
+    if bf[0] != "ok" or not isinstance(bf[1], int) or bf[1] == 0:
+        return
+    i = (bf[1] - 1) if bf[1] > 0 else (2 - bf[1])
+    if i not in clean:
+        _fail(acc, "app.translate.best_frame(allow_rc=True): the frame it names has an internal stop", {"part": "select", "s": s, "code": cid}, bf, clean)
+        return
     r = s if i < 3 else o_rc(s)
     off = i % 3
     n = (len(r) - off) // 3
@@ -583,7 +591,7 @@ def chk_select(acc, s, cid):
     acc.outcome(("select", i, got[0]))
     if got != ("ok", want):
         strand = "reverse strand frame" if i >= 3 else "forward strand frame"
-        _fail(acc, f"app.translate.select_translatable(allow_rc=True): " + ("selected sequence is not the codons of the only stop-free frame" if got[0] == "ok" else f"raised {got[1]}") + f" [{strand} {i % 3 + 1}]",
+        _fail(acc, f"app.translate.select_translatable(allow_rc=True): " + ("selected sequence is not the codons of the frame best_frame() names" if got[0] == "ok" else f"raised {got[1]}") + f" [{strand} {i % 3 + 1}]",
               case, got, want)
 
 
@@ -895,9 +903,24 @@ def chk_gapped_stops(acc, order):
     acc.sample({"gapped_terminal_stops": True, "code_order": order}, "gapped_stops")
 
 
+def select_rev_strings(tail_len, first_stop, between="A"):
+    """sequences whose three forward frames each hold an internal stop (a stop at offsets 0, 4 and 8), so that the frame
+    select_translatable has to use lies on the reverse strand: every choice of the three stops, the two bases between
+    them (quick: A; thorough: A, C) and every tail of the given length over {A, C, G}"""
+    stops = ["TAA", "TAG", "TGA"]
+    for s2, s3 in itertools.product(stops, repeat=2):
+        for n1, n2 in itertools.product(between, repeat=2):
+            for tail in itertools.product("ACG", repeat=tail_len):
+                yield first_stop + n1 + s2 + n2 + s3 + "".join(tail)
+
+
 def shards(tier, seed):
     b = bounds(tier)
     out = [{"part": "tables"}, {"part": "symbols"}] + [{"part": "gapped_stops", "order": o} for o in CODE_ORDERS]
+    out += [{"part": "select_rev", "tail": L, "first": st, "between": "A" if tier == "quick" else "AC"}
+            for L in ((3, 4) if tier == "quick" else (3, 4, 5)) for st in ("TAA", "TAG", "TGA")]
+    if tier == "quick":
+        out.append({"part": "select_rev", "tail": 5, "first": "TGA", "between": "A"})  # reaches the frames -2 and -3 as well
     # gc level: all distinct tables inside the shard
     for n in range(0, b["gc_len"] + 1):
         of = _nchunks(n, 0.95 * len(TABLE_REPS), target_s=8.0 if tier == "quick" else 40.0)
@@ -954,6 +977,10 @@ def run_shard(spec, acc):
             chk_symbols(acc, name)
     elif part == "gapped_stops":
         chk_gapped_stops(acc, spec["order"])
+    elif part == "select_rev":
+        for s in select_rev_strings(spec["tail"], spec["first"], spec["between"]):
+            chk_select(acc, s, 1)
+        acc.sample({"select_translatable": "reverse-strand frames", "tail_length": spec["tail"]}, "select_rev")
     elif part == "translate":
         for s in _strings(spec["n"], spec["chunk"], spec["of"]):
             for cid in TABLE_REPS:
